@@ -109,7 +109,7 @@ def run(chk: Check) -> None:
         chk.ob('OWN-outputs', f, ok, 'the outputs mapping is replaced only at construction / load', node=node, kind='replacer', expr='_outputs store')
     proc = prog.cls('processes.Process')
     for c in [proc] + prog.subclasses(proc):
-        for f in c.methods.values():
+        for f in c.vmethods.values():
             if f is out:
                 continue
             for n in ast.walk(f.node):
@@ -169,8 +169,11 @@ def run(chk: Check) -> None:
     ok = len(hs) == 1
     if ok:
         h = hs[0]
-        body = [norm(s) for s in h.body]
-        ok = any(b == f'new_state = {h.name}.state' for b in body) and any('self._enter_next_state(new_state)' in b for b in body)
+        # the state entered in the handler is the one the exception carries -- directly, or through a name bound to it in the handler
+        carried = f'{h.name}.state'
+        bound = {norm(s.targets[0]) for s in h.body if isinstance(s, ast.Assign) and len(s.targets) == 1 and norm(s.value) == carried}
+        enters = [c for s in h.body for c in ast.walk(s) if isinstance(c, ast.Call) and last_name(c) == '_enter_next_state']
+        ok = len(enters) == 1 and len(enters[0].args) == 1 and (norm(enters[0].args[0]) == carried or norm(enters[0].args[0]) in bound)
     chk.ob('PROV-downgrade', tt, ok, 'transition_to enters the state carried by StateEntryFailed', kind='enters-carried-state')
     sef = prog.func('base.state_machine.StateEntryFailed.__init__')
     chk.ob('PROV-downgrade', sef, any(isinstance(n, ast.Assign) and norm(n.targets[0]) == 'self.state' and norm(n.value) == sef.params[1] for n in ast.walk(sef.node)),
